@@ -6,11 +6,11 @@
     SUMMARY
     - Guard [md_ok ds base s] (Part G; [ds] = default schema, the catalog is keyed by printed names) and the statement
       in executable form [lemma_B_md_check]; test table [lemma_B_md_tests] (32 instances x 2 trivia lists, all "holds",
-      21 of them differ from the result without metadata) and sweep [lemma_B_md_sweep] (7680 instances, 3791 inside
+      21 of them differ from the result without metadata) and sweep [lemma_B_md_sweep] (7680 instances, 4211 inside
       the guards, 0 failures).
-    - Without [md_ok] the statement is false: [lemma_B_md_unguarded_refuted]; sixteen counterexample classes (Part X,
+    - Without [md_ok] the statement is false: [lemma_B_md_unguarded_refuted]; thirteen counterexample classes (Part X,
       module [CxMd]): [cxBmd_guards] / [cxBmd_fail] / [cxBmd_excluded], observed values [cxBmd_explicit_list] (K-C13-1),
-      [cxBmd_star_mixed], [cxBmd_star_shared] (K-C11-1), [cxBmd_star_into_known], [cxBmd_arity], [cxBmd_unq_*].
+      [cxBmd_star_mixed], [cxBmd_star_shared] (K-C11-1), [cxBmd_star_into_known], [cxBmd_arity], [cxBmd_unq_placeholder], [cxBmd_unq_star_guess].
     - PROVED (no axioms), for arbitrary trivia and any number of items / tables of Lemma B's fragment:
         [c13_unknown_tables_same]  clause (d): the catalog knows none of the tables of the statement => the pairs are
                                    those of the same environment without metadata; [lemma_B_md_unknown]: ... and equal
@@ -91,9 +91,9 @@ Definition md_target_ok (ds : string) (md : catalog) (s : stmt) : bool :=
   | _ => true
   end.
 
-(** (4) an unqualified reference over several tables: all of them unknown (nothing changes), or all of them known, in a
-        named schema (the implementation consults the catalog only for tables whose schema is not the placeholder),
-        at least one listing the column, and the column is not produced by an expanded star (K-C02-5 through metadata) *)
+(** (4) an unqualified reference over several tables: the tables that list the column are in a named schema (the
+        implementation consults the catalog only for tables whose schema is not the placeholder, K-C13-6), and the column
+        is not produced by an expanded star (K-C02-5 through metadata) *)
 Definition rel_named_schema (ds : string) (r : rel) : bool :=
   match fst (rtref r) with Some _ => true | None => negb (String.eqb ds "") end.
 Definition rel_lists (ds : string) (md : catalog) (c : string) (r : rel) : bool :=
@@ -104,10 +104,8 @@ Definition md_unq_ok (ds : string) (md : catalog) (from : list rel) (items : lis
   | _ =>
       forallb (fun i => match i with
                         | IExpr (EColRef None c) _ =>
-                            forallb (fun r => negb (rel_is_known ds md r)) from
-                            || (forallb (rel_is_known ds md) from && forallb (rel_named_schema ds) from
-                                && existsb (rel_lists ds md c) from
-                                && negb (mem_string c (expanded_names ds md from items)))
+                            forallb (fun r => negb (rel_lists ds md c r) || rel_named_schema ds r) from
+                            && negb (mem_string c (expanded_names ds md from items))
                         | _ => true
                         end) items
   end.
@@ -248,13 +246,13 @@ Module CxMd.
       midway.  The property prescribes nothing; recorded as observed. *)
   Definition arity := (md_x, "main", SInsert X None (sel [col "a"; col "b"; col "c"] [T "t"])).
   Definition target_dup := ([("main.x", ["p"; "p"])], "main", SInsert X None (sel [col "a"; col "b"] [T "t"])).
-  (** K-C13-5 (new): an unqualified column, one table lists it, another table is unknown: attributed to the known table,
-      the unknown one is no longer a candidate.  Deviation from the property text ("tables with unknown columns stay candidates"). *)
+  (** NOT counterexamples (the property prescribes exactly this; they were guarded out by the first version of the
+      specification): one table lists the column, another is unknown: attributed to the lister only; the known table
+      lacks it / nobody lists it: unresolved with all tables of the scope as printed candidates *)
   Definition unq_unknown_dropped := (md_t, "main", SInsert X None (sel [col "a"] [T "t"; T "u"])).
-  (** ... the known table lacks it, the other is unknown: stays unresolved, and the known table stays a printed candidate *)
   Definition unq_lacking_stays := (md_t, "main", SInsert X None (sel [col "zz"] [T "t"; T "u"])).
-  (** ... no known table lists it: stays unresolved with all tables as candidates (invalid SQL under a complete catalog) *)
   Definition unq_none_lists := (md_tu, "main", SInsert X None (sel [col "zz"] [T "t"; T "u"])).
+  Definition now_inside := [unq_unknown_dropped; unq_lacking_stays; unq_none_lists].
   (** K-C13-6 (new): without a default schema, tables without schema are printed "<default>.t"; star expansion finds
       their catalog entry, the resolution of unqualified columns skips them. *)
   Definition unq_placeholder := ([("<default>.t", ["a"; "b"]); ("<default>.u", ["c"])], "", SInsert X None (sel [col "a"] [T "t"; T "u"])).
@@ -267,7 +265,7 @@ Module CxMd.
   Definition cols_star := (md_tu, "main", SInsert X (Some ["p"; "q"]) (sel [qstar "u"; qcol "t" "b"] [T "t"; T "u"])).
 
   Definition all := [explicit_list; star_mixed; star_shared; star_vs_named; star_into_known; star_into_known_same; arity; target_dup;
-                     unq_unknown_dropped; unq_lacking_stays; unq_none_lists; unq_placeholder; unq_star_guess; upper; star_name; cols_star].
+                     unq_placeholder; unq_star_guess; upper; star_name; cols_star].
   Definition model (x : catalog * string * stmt) := script_pairs (E (snd (fst x))) false (fst (fst x)) [r_stmt [] (snd x)].
   Definition spec (x : catalog * string * stmt) := spec_pairs_md (snd (fst x)) (fst (fst x)) (snd x).
 End CxMd.
@@ -302,18 +300,12 @@ Lemma cxBmd_arity :
   CxMd.model CxMd.arity = ["main.t.a>main.x.a"; "main.t.b>main.x.a"; "main.t.c>main.x.q"] /\
   CxMd.spec CxMd.arity = ["main.t.a>main.x.a"; "main.t.b>main.x.b"; "main.t.c>main.x.c"].
 Proof. split; vm_compute; reflexivity. Qed.
-Lemma cxBmd_unq_unknown_dropped :
+Lemma md_unq_mixed_inside :
+  forallb (fun x => String.eqb (lemma_B_md_check [] (MdB.E (snd (fst x))) (fst (fst x)) (snd x)) "holds") CxMd.now_inside = true /\
   CxMd.model CxMd.unq_unknown_dropped = ["main.t.a>main.x.a"] /\
-  CxMd.spec CxMd.unq_unknown_dropped = ["a{main.t,main.u}>main.x.a"].
-Proof. split; vm_compute; reflexivity. Qed.
-Lemma cxBmd_unq_lacking_stays :
   CxMd.model CxMd.unq_lacking_stays = ["zz{main.t,main.u}>main.x.zz"] /\
-  CxMd.spec CxMd.unq_lacking_stays = ["main.u.zz>main.x.zz"].
-Proof. split; vm_compute; reflexivity. Qed.
-Lemma cxBmd_unq_none_lists :
-  CxMd.model CxMd.unq_none_lists = ["zz{main.t,main.u}>main.x.zz"] /\
-  CxMd.spec CxMd.unq_none_lists = ["zz{}>main.x.zz"].
-Proof. split; vm_compute; reflexivity. Qed.
+  CxMd.model CxMd.unq_none_lists = ["zz{main.t,main.u}>main.x.zz"].
+Proof. repeat split; vm_compute; reflexivity. Qed.
 Lemma cxBmd_unq_placeholder :
   CxMd.model CxMd.unq_placeholder = ["a{<default>.t,<default>.u}><default>.x.a"] /\
   CxMd.spec CxMd.unq_placeholder = ["<default>.t.a><default>.x.a"].
@@ -1826,15 +1818,10 @@ Lemma resolve_md_unknown md scope r : scope_unknown md scope -> resolve_md md sc
 Proof.
   intros Hu. unfold resolve_md, resolve. destruct (fst r) as [q|]; [reflexivity|].
   destruct scope as [|b [|b' rest]]; [reflexivity|reflexivity|].
-  assert (Ec : forall l, (forall x, In x l -> In x (b :: b' :: rest)) -> flat_map (rel_cand md (snd r)) l =
-                         flat_map (fun b => match b_rel b with RelBase t => [t] | RelCols _ => [] end) l).
-  { intros l Hl. apply flat_map_ext_in'. intros x Hx. unfold rel_cand. destruct (b_rel x) as [t|cols] eqn:Ex; [|reflexivity].
-    rewrite (Hu x t (Hl x Hx) Ex). reflexivity. }
-  rewrite (Ec _ (fun x Hx => Hx)).
-  assert (Eg : forallb base_b (b :: b' :: rest) && negb (existsb (unknown_b md) (b :: b' :: rest)) = false).
-  { cbn [forallb existsb]. unfold base_b at 1, unknown_b at 1. destruct (b_rel b) as [t|cols] eqn:Eb; [|reflexivity].
-    unfold is_known. rewrite (Hu b t (or_introl eq_refl) Eb). cbn [negb orb]. apply andb_false_r. }
-  rewrite Eg. cbn [andb]. reflexivity.
+  assert (El : flat_map (rel_lister md (snd r)) (b :: b' :: rest) = []).
+  { apply flat_map_none. intros x Hx. unfold rel_lister. destruct (b_rel x) as [t|cols] eqn:Ex; [|reflexivity].
+    rewrite (Hu x t Hx Ex). reflexivity. }
+  rewrite El. cbn [dedup_s is_nil negb]. rewrite andb_false_r. reflexivity.
 Qed.
 
 Lemma item_cols_md_unknown md scope i : scope_unknown md scope -> item_cols_md md scope i = item_cols scope i.
@@ -1894,7 +1881,7 @@ Proof. vm_compute. reflexivity. Qed.
 
 (* ================================================================== *)
 (** * A systematic sweep of [lemma_B_md_statement] in executable form: 4 statement kinds x 16 select lists x 6 FROM
-      clauses x 10 catalogs x 2 default schemas = 7680 instances; 3791 satisfy all guards, none of them fails *)
+      clauses x 10 catalogs x 2 default schemas = 7680 instances; 4211 satisfy all guards, none of them fails *)
 Module Sweep.
   Import MdB.
   Definition itemsets : list (list item) := [
@@ -1920,7 +1907,7 @@ End Sweep.
 
 Lemma lemma_B_md_sweep :
   List.length Sweep.all = 7680 /\
-  List.length (filter (String.eqb "holds") Sweep.all) = 3791 /\
+  List.length (filter (String.eqb "holds") Sweep.all) = 4211 /\
   List.length (filter (String.eqb "FAILS") Sweep.all) = 0.
 Proof. vm_compute. repeat split. Qed.
 
